@@ -551,6 +551,18 @@ func runC02(c *mon.Ctx) {
 			}
 			desc = "table " + tag + " taken from " + o.name
 			k.Class("fonts:foreign-table")
+			// or one of the stand-alone seed tables of that kind (hand-built
+			// ones included): decoded in the context of a whole font
+			dec := map[string]string{"cmap": dCmap, "name": dName, "post": dPost, "OS/2": dOS2, "head": dHead, "maxp": dMaxp, "kern": dKern,
+				"GSUB": dGsub, "GPOS": dGpos, "GDEF": dGdef}[tag]
+			if idx := S.byDec[dec]; dec != "" && len(idx) > 0 && r.IntN(2) == 0 {
+				sd := S.all[idx[r.IntN(len(idx))]]
+				if len(sd.data) < maxLen/2 {
+					tabs[tag] = sd.data
+					desc = "table " + tag + " replaced by the seed " + sd.origin
+					k.Class("fonts:seed-table")
+				}
+			}
 		default:
 			tabs[tag] = nil
 			tabs[tag] = []byte{}
@@ -610,7 +622,7 @@ func runC02(c *mon.Ctx) {
 		"acc:glyf.Decode>SimpleGlyph.Decode", "acc:glyf.Decode>Glyphs.Encode",
 		"acc:gtab.Read(GSUB)>Encode", "acc:gtab.Read(GPOS)>Encode", "acc:gdef.Read>Encode", "acc:cff.Read>Write",
 		"fonts:cff-in-sfnt:accepted", "font:glyf", "font:cff", "font:cff-cid", "cff:cid-keyed", "cff:simple",
-		"truncate:exhaustive", "truncate:sampled", "fieldsweep:seeds", "fonts:cross-table:cmap-vs-glyph-count", "fonts:cross-table:glyph-counts", "charstrings:catalog", "charstrings:accepted", "charstrings:rejected")
+		"truncate:exhaustive", "truncate:sampled", "fieldsweep:seeds", "fonts:cross-table:cmap-vs-glyph-count", "fonts:cross-table:glyph-counts", "fonts:seed-table", "charstrings:catalog", "charstrings:accepted", "charstrings:rejected")
 	for _, a := range c02amps {
 		c.Require("amplifier:" + a.name)
 	}
